@@ -25,7 +25,7 @@ PID = 'C14'
 BUDGET = {
     # tier: (bases, max crash points per (base, victim), double-crash scenarios)
     'quick': (8, 40, 60),
-    'thorough': (60, 150, 2500),
+    'thorough': (20, 80, 600),
 }
 
 
@@ -240,7 +240,7 @@ def main(tier: str, seed: int, replay: str | None = None) -> int:
 
 
 # ---------------------------------------------------------------- procnet
-PROC_BUDGET = {'quick': 10, 'thorough': 140}
+PROC_BUDGET = {'quick': 10, 'thorough': 100}
 GRACE = 25.0
 
 
